@@ -126,9 +126,8 @@ fn key_universe(rng: &mut StdRng, cfg: &Cfg, long_key: bool) -> Vec<Vec<u8>> {
         }
         if !cfg.pers {
             keys.push(vec![b'M'; 20_000]);
-            // beyond 65 535 bytes (a 16-bit length would wrap) and at the documented maximum
+            // beyond 65 535 bytes (a 16-bit length would wrap)
             keys.push(vec![b'Q'; 70_000]);
-            keys.push(vec![b'R'; 100 * 1024]);
         }
     }
     keys.sort();
